@@ -1,0 +1,85 @@
+//go:build verif
+
+package parser
+
+// Contracts for the deductive verifier in /verif (build tag verif: not compiled
+// into normal builds). Oracle: CSS Syntax Level 3 §4 (tokenization) for the
+// predicates; memory safety, progress and exact consumption for the consumers
+// (properties C06, C07, C01).
+
+// Representation invariant of the tokenizer: positions are ordered and inside the
+// input, and the input contains no NUL byte (Tokenize replaces them), which is what
+// makes every step of consumeValueList consume at least one byte.
+//@ type tokenizer invariant 0 <= self.previousPos && self.previousPos <= self.pos && self.pos <= len(self.src) && forall(i, 0, len(self.src), self.src[i] != 0)
+//@   props C06 C07 C01
+
+// the two anchored regular expressions of this package (assumed from their source text:
+// numberRe = ^[-+]?([0-9]*\.)?[0-9]+([eE][+-]?[0-9]+)?   hexEscapeRe = ^([0-9A-Fa-f]{1,6})[ \n\t]?)
+//@ extern (*regexp.Regexp).FindIndex
+//@   pure
+//@   requires re == numberRe
+//@   ensures result == nil || (len(result) == 2 && result[0] == 0 && 1 <= result[1] && result[1] <= len(b))
+//@ extern (*regexp.Regexp).FindSubmatch
+//@   modifies nothing
+//@   requires re == hexEscapeRe
+//@   ensures len(result) == 0 || (len(result) == 2 && 1 <= len(result[1]) && len(result[1]) <= 6 && len(result[1]) <= len(result[0]) && len(result[0]) <= len(result[1]) + 1 && len(result[0]) <= len(b))
+//@   ensures len(result) == 2 ==> forall(i, 0, len(result[1]), ('0' <= result[1][i] && result[1][i] <= '9') || ('a' <= result[1][i] && result[1][i] <= 'f') || ('A' <= result[1][i] && result[1][i] <= 'F'))
+
+//@ func isSpace
+//@   props C06 C07
+//@   nopanic
+//@   ensures result == (r == ' ' || r == '\n' || r == '\t')
+
+// vNameStartByte: name-start code point (CSS Syntax §4.2) read off the first byte:
+// a non-ASCII byte starts a non-ASCII code point.
+func vNameStartByte(c byte) bool {
+	return c >= 0x80 || 'a' <= c && c <= 'z' || 'A' <= c && c <= 'Z' || c == '_'
+}
+
+//@ func isNameStart
+//@   props C06 C07
+//@   nopanic
+//@   requires 0 <= pos && pos < len(css)
+//@   ensures result == vNameStartByte(css[pos])
+
+// CSS Syntax §4.3.9 "would start an identifier", with the end of input after `-`
+// meaning "no", and §4.3.8 valid escape: `\` not followed by a newline.
+//@ func (*tokenizer).isIdentStart
+//@   props C06 C07 C01
+//@   nopanic
+//@   requires tk != nil && tk.pos < len(tk.src)
+//@   let c0 = tk.src[tk.pos]
+//@   let has1 = tk.pos + 1 < len(tk.src)
+//@   let c1 = tk.src[tk.pos+1]
+//@   let has2 = tk.pos + 2 < len(tk.src)
+//@   let c2 = tk.src[tk.pos+2]
+//@   ensures vNameStartByte(c0) ==> result
+//@   ensures c0 == '-' ==> result == (has1 && (vNameStartByte(c1) || c1 == '-' || (c1 == '\\' && !(has2 && c2 == '\n'))))
+//@   ensures c0 == '\\' ==> result == !(has1 && c1 == '\n')
+//@   ensures !vNameStartByte(c0) && c0 != '-' && c0 != '\\' ==> !result
+
+//@ func (*tokenizer).consumeWhitespace
+//@   props C06 C07 C01
+//@   nopanic
+//@   requires tk != nil && tk.pos < len(tk.src)
+//@   modifies tk.pos
+//@   ensures old(tk.pos) < tk.pos
+//@   loop 1 invariant old(tk.pos) < tk.pos && tk.pos <= len(tk.src)
+//@   loop 1 decreases len(tk.src) - tk.pos
+
+//@ func (*tokenizer).consumeEscape
+//@   props C06 C07 C01
+//@   nopanic
+//@   requires tk != nil
+//@   modifies tk.pos
+//@   ensures old(tk.pos) <= tk.pos
+//@   ensures old(tk.pos) < len(tk.src) ==> old(tk.pos) < tk.pos
+
+//@ func (*tokenizer).consumeIdent
+//@   props C06 C07 C01
+//@   nopanic
+//@   requires tk != nil
+//@   modifies tk.pos
+//@   ensures old(tk.pos) <= tk.pos
+//@   loop 1 invariant old(tk.pos) <= startPos && startPos <= tk.pos && tk.pos <= L && L == len(tk.src)
+//@   loop 1 decreases L - tk.pos
